@@ -221,6 +221,16 @@ def streamStep2 (d : StreamDrv) (f : List String) : StreamDrv × String :=
     | some .live => repeatOp1 d "deliver" sid 100000 []
     | some (.done _) => repeatOp1 d "deliver" sid 100000 []
     | _ => (d, "bad-state")
+  | ["burst", sid, n] =>
+    -- n appends while the client of live stream `sid` does not read, then it reads everything (`put`ⁿ ; `drain`)
+    match n.toNat?, phaseOf d sid, d.net with
+    | some n, some .live, some net =>
+      if (findStream net sid).map (fun e => decide (ackedOf d sid < e.s.sent.length)) = some true then (d, "bad-state") else
+      let d1 := (List.range n).foldl (fun d _ => normalize (streamStep d ["put"]).1) d
+      let head := match d1.net with | some nn => nn.store.head | none => 0
+      let (d2, r) := repeatOp1 d1 "deliver" sid 100000 []
+      (d2, s!"ok {head} ; " ++ r)
+    | _, _, _ => (d, "bad-state")
   | "init" :: _ => let (d', r) := streamStep d f; ({ d' with unreported := [] }, r)
   | ["reset"] => let (d', r) := streamStep d f; ({ d' with unreported := [] }, r)
   | _ => streamStep1 d f
